@@ -113,6 +113,18 @@ class C08Machine(RecordingMixin, RuleBasedStateMachine):
         else:
             self.circs[len(prog["ops"]) % 6] = c
 
+    def do_new_gate(self, gate):
+        name = gate
+        """A circuit from the qubit library: its whole content is one (heralded) group."""
+        from lightworks import qubit
+        kw = {"target_qubit": 0} if name in ("CNOT", "CNOT_Heralded") else {}
+        c = self.guarded(f"qubit.{name}()", lambda: getattr(qubit, name)(**kw))[0]
+        if len(self.circs) < 6:
+            self.circs.append(c)
+        else:
+            self.circs[len(name) % 6] = c
+        self.info_labels.add("single-group-circuit")
+
     def do_state(self, occ):
         import lightworks as lw
         if len(self.states) < 4:
@@ -369,6 +381,30 @@ class C08Machine(RecordingMixin, RuleBasedStateMachine):
     @rule(i=IDX, n=st.integers(0, 1), a=st.integers(0, 5), b=st.integers(0, 5))
     def r_herald(self, i, n, a, b):
         self.step("herald", i=i, n=n, a=a, b=b)
+
+    @rule(name=st.sampled_from(["CZ", "CNOT", "CZ_Heralded", "CNOT_Heralded"]), op=gen.primitive(4, True))
+    def r_gate_copy_unpack_edit(self, name, op):
+        """single-group circuit -> copy -> the copy is unpacked and edited: the original is a bystander"""
+        self.step("new_gate", gate=name)
+        k = len(self.circs) - 1 if len(self.circs) <= 6 else len(name) % 6
+        k = min(k, len(self.circs) - 1)
+        for j, c in enumerate(self.circs):
+            if c._get_circuit_spec() and len(c._get_circuit_spec()) == 1 and c.input_modes == 4:
+                k = j
+        self.step("copy", i=k, freeze=False)
+        j = len(self.circs) - 1
+        self.step("rewrite", i=j, which="unpack")
+        self.step("edit", i=j, op=op)
+
+    @rule(prog=gen.flat_program(min_n=2, max_n=4, max_ops=3, lossy=False), n=st.integers(2, 4), op=gen.primitive(4, True))
+    def r_group_copy_unpack_edit(self, prog, n, op):
+        """a circuit holding exactly one group (sub-circuit added with group=True) -> copy -> unpack + edit the copy"""
+        wrapped = {"n": max(n, prog["n"]), "ops": [["add", prog, 0, True, "g"]]}
+        self.step("new", prog=wrapped)
+        self.step("copy", i=len(self.circs) - 1, freeze=False)
+        j = len(self.circs) - 1
+        self.step("rewrite", i=j, which="unpack")
+        self.step("edit", i=j, op=op)
 
     @rule(i=IDX)
     def r_scribble(self, i):
